@@ -63,9 +63,11 @@ def pattern_bindings(pat):
     return out, rest
 
 
-def alias_closure(body, start):
+def alias_closure(body, start, strict=False):
     """names that may hold (part of) the value bound to `start` inside `body`: through lets, loop variables,
-    `if let` / `match` bindings on it, closure parameters of iterator adaptors over it, and containers it is pushed into"""
+    `if let` / `match` bindings on it, closure parameters of iterator adaptors over it, and containers it is pushed into.
+    `strict`: a `let` whose initialiser chooses between alternatives (contains an if / match) is not an alias - the value
+    then reaches the new name only on some executions."""
     reach = {start}
     changed = True
     nodes = list(walk(body))
@@ -84,7 +86,7 @@ def alias_closure(body, start):
         for n in nodes:
             k = n["k"]
             if k == "Local" and n["init"] is not None:
-                if touches(n["init"]):
+                if touches(n["init"]) and not (strict and any(x["k"] in ("If", "Match") for x in walk(n["init"]))):
                     for b in walk(n["pat"]):
                         if b["k"] == "PIdent":
                             add(b["name"])
